@@ -561,6 +561,16 @@ def make_module(case, statuses):
         def state_plain(self, sm):     # a first state without status code: BUSY is the default while it runs
             return self.state_a
 
+        nplain = 0
+
+        def state_plain_slow(self, sm):     # ... staying for some cycles
+            if sm.init:
+                self.nplain = 0
+            self.nplain += 1
+            if self.nplain <= case['retries'] + 1:
+                return Retry
+            return self.state_a
+
         ncl = 0
 
         def state_cleaning(self, sm):   # a cleanup sequence spanning several cycles
@@ -615,7 +625,7 @@ def module_history(ctx, case):
         mark = len(statuses)
         try:
             if o == 'start':
-                m.start_machine(m.state_plain if case.get('first') == 'plain' else m.state_a)
+                m.start_machine({'plain': m.state_plain, 'plain-slow': m.state_plain_slow}.get(case.get('first'), m.state_a))
                 expect_busy, stopped = True, False
             elif o == 'stop':
                 if m._state_machine.is_active:
@@ -677,7 +687,7 @@ def module_injected(ctx, case, inj, position):
 
     def do(o):
         if o == 'start':
-            m.start_machine(m.state_plain if case.get('first') == 'plain' else m.state_a)
+            m.start_machine({'plain': m.state_plain, 'plain-slow': m.state_plain_slow}.get(case.get('first'), m.state_a))
         elif o == 'stop':
             m.stop_machine()
         else:
@@ -713,7 +723,10 @@ def module_injected(ctx, case, inj, position):
             # (a cycle injected after the request was posted may have run the whole machine already: then it is over, legitimately)
             state['in_req'] = inj != 'cycle'    # (nothing is injected into the observation itself)
             status_now = tuple(sm.status)
-            if o == 'start' and (sm.is_active or sm.next_task is not None) and not 300 <= int(status_now[0]) < 400:
+            started = o == 'start' or (inj == 'start' and state['done'] and not state.get('judged'))
+            if inj == 'start' and state['done']:
+                state['judged'] = True     # (the step in which the second thread's start request was made)
+            if started and (sm.is_active or isinstance(sm.next_task, smmod.Start)) and not 300 <= int(status_now[0]) < 400:
                 not_busy.append(status_now)
     finally:
         sys.settrace(None)
@@ -764,13 +777,16 @@ MODULE_SCENARIOS = [
     # a restart of a running machine: the old run ends with the new start pending
     {'retries': 3, 'chain': True, 'b': 'retry', 'cleanup_cycles': 0, 'first': 'plain', 'ops': ['start', 'cycle', 'start', 'cycle', 'cycle', 'cycle']},
     {'retries': 3, 'chain': True, 'b': 'retry', 'cleanup_cycles': 1, 'first': 'coded', 'ops': ['start', 'cycle', 'start', 'cycle', 'cycle', 'cycle', 'cycle']},
+    # a run ending by itself while a second thread starts the next one, whose first state has no status code for several cycles
+    {'retries': 1, 'chain': False, 'b': 'finish', 'cleanup_cycles': 0, 'first': 'plain-slow', 'ops': ['start', 'cycle', 'cycle', 'cycle', 'cycle', 'cycle', 'cycle']},
+    {'retries': 0, 'chain': True, 'b': 'bare-finish', 'cleanup_cycles': 0, 'first': 'plain-slow', 'ops': ['start', 'cycle', 'cycle', 'cycle', 'cycle']},
 ]
 
 
 @st.composite
 def module_case(draw):
     return {'kind': 'module', 'retries': draw(st.integers(0, 3)), 'chain': draw(st.booleans()), 'b': draw(st.sampled_from(['finish', 'retry', 'raise', 'bare-finish'])),
-            'cleanup_cycles': draw(st.sampled_from([0, 0, 1, 3])), 'first': draw(st.sampled_from(['coded', 'plain'])),
+            'cleanup_cycles': draw(st.sampled_from([0, 0, 1, 3])), 'first': draw(st.sampled_from(['coded', 'plain', 'plain-slow'])),
             'ops': draw(st.lists(st.sampled_from(['start', 'stop', 'cycle', 'cycle', 'cycle']), min_size=1, max_size=14))}
 
 
